@@ -164,15 +164,19 @@ impl Decoder<'_> {
     pub fn string(&mut self) -> Result<String> {
         #[cfg(feature = "verif-hooks")]
         self.verif_event(crate::verif::DecReq::Str);
-        // If we have a limit, then don't search further than we need to.
+        // If we have a limit, then don't search further than we need to, and
+        // never search beyond the last whole word of the stream.
+        let stream_words = self.bytes.len().saturating_sub(self.offset) / WORD_NUM_BYTES;
         let slice = match self.limit {
-            Some(limit) => &self.bytes[self.offset..(self.offset + limit * WORD_NUM_BYTES)],
-            None => &self.bytes[self.offset..],
+            Some(limit) if limit < stream_words => {
+                &self.bytes[self.offset..(self.offset + limit * WORD_NUM_BYTES)]
+            }
+            _ => &self.bytes[self.offset..(self.offset + stream_words * WORD_NUM_BYTES)],
         };
         // Find the null terminator.
         let first_null_byte = slice.iter().position(|&c| c == 0).ok_or(match self.limit {
-            Some(_) => Error::LimitReached(self.offset + slice.len()),
-            None => Error::StreamExpected(self.offset),
+            Some(limit) if limit <= stream_words => Error::LimitReached(self.offset + slice.len()),
+            _ => Error::StreamExpected(self.offset),
         })?;
         // Validate the string is utf8.
         let result = str::from_utf8(&slice[..first_null_byte])
